@@ -44,7 +44,11 @@ ERR_CONST = ['#N/A', '#DIV/0!', '#VALUE!', '#REF!', '#NUM!', '#NAME?', '#NULL!']
 
 
 def col(c):
-    return COLS[c - 1]
+    out = ''
+    while c:  # bijective base 26
+        c, r = divmod(c - 1, 26)
+        out = chr(65 + r) + out
+    return out
 
 
 def a1(r, c, ab=False):
